@@ -47,6 +47,18 @@ MixedTimeLocks(m) == ~TL(m).k
 Satisfiable(m, ctx) ==
   \E w \in {x \in WorldsOfCtx(m, ctx) : x.sigs = KeysOf(m) /\ x.pre = HashesOf(m)} : SatSet(m, w, ctx) # {}
 
+\* The defect behind `allow_unsatisfiable` is structural: no satisfaction exists even when every
+\* time lock, taken on its own, is met.  A script whose only obstacle is that its paths need
+\* locks of conflicting units has the defect of `allow_mixed_time_locks`, not this one (the
+\* property lists the two separately; demanding both from this switch would ask for more than
+\* it states).  Locks are therefore replaced by the constant 1 before asking for a satisfaction.
+RECURSIVE NoLocks(_)
+NoLocks(m) ==
+  IF m.f \in {"older", "after"} THEN Leaf("1", 0)
+  ELSE IF Len(m.xs) = 0 THEN m
+  ELSE [m EXCEPT !.xs = [q \in 1..Len(m.xs) |-> NoLocks(m.xs[q])]]
+StructurallySatisfiable(m, ctx) == Satisfiable(NoLocks(m), ctx)
+
 \* does switching `sw` off reject m?  (t = the type of m as the library sees it)
 Defect(sw, m, t, ctx) ==
   CASE sw = "allow_duplicate_keys" -> HasDupKeys(m)
@@ -58,7 +70,7 @@ Defect(sw, m, t, ctx) ==
     [] sw = "allow_sigless_branch" -> "s" \notin t.fl
     [] sw = "allow_non_b" -> t.b # "B"
     [] sw = "allow_mixed_time_locks" -> MixedTimeLocks(m)
-    [] sw = "allow_unsatisfiable" -> ~Satisfiable(m, ctx)
+    [] sw = "allow_unsatisfiable" -> ~StructurallySatisfiable(m, ctx)
     \* key kinds of the harness universe: x-only in tapscript, compressed elsewhere
     [] sw = "allow_x_only_keys" -> ctx = "tap" /\ KeysOf(m) # {}
     [] sw = "allow_uncompressed_keys" -> FALSE
